@@ -240,7 +240,35 @@ def cubic_spline(
         alpha = (-2 * c) / (b + torch.sqrt(b.pow(2) - 4 * a * c))
         outputs[quadratic_mask] = alpha + input_left_cumwidths[quadratic_mask]
 
-        shifted_outputs = outputs - input_left_cumwidths
+        # The closed-form roots above lose accuracy for strongly non-uniform bins: the fallback
+        # drops a cubic term that an absolute threshold on `a` does not make negligible, and the
+        # root selection can return a value slightly outside the bin (or NaN). Make the result
+        # independent of that: bracket the root of the (monotone) cubic inside the bin by
+        # bisection, then take one Newton step (which also carries the exact gradients), kept
+        # inside the bracket.
+        def _cubic(shifted):
+            return (
+                (inputs_a * shifted + inputs_b) * shifted + inputs_c
+            ) * shifted + inputs_d
+
+        with torch.no_grad():
+            lower = torch.zeros_like(inputs)
+            upper = input_right_cumwidths - input_left_cumwidths
+            for _ in range(40):
+                middle = 0.5 * (lower + upper)
+                below = _cubic(middle) < inputs
+                lower = torch.where(below, middle, lower)
+                upper = torch.where(below, upper, middle)
+            shifted_outputs = 0.5 * (lower + upper)
+        slopes_at_root = (
+            3 * inputs_a * shifted_outputs + 2 * inputs_b
+        ) * shifted_outputs + inputs_c
+        shifted_outputs = (
+            shifted_outputs - (_cubic(shifted_outputs) - inputs) / slopes_at_root
+        )
+        shifted_outputs = torch.max(torch.min(shifted_outputs, upper), lower)
+        outputs = shifted_outputs + input_left_cumwidths
+
         logabsdet = -torch.log(
             (
                 3 * inputs_a * shifted_outputs.pow(2)
